@@ -19,6 +19,9 @@ from ..srcmodel import call_name, unparse, walk_no_nested
 from ..strflow import StrFlow
 
 
+from .sem import fresh_memo  # noqa: E402
+
+
 def run(ctx, report: Report) -> None:
     src, inv = ctx.src, ctx.consts
     report.explanation = (
@@ -105,7 +108,7 @@ def run(ctx, report: Report) -> None:
                   lambda html, restrict: html,
                   'the language of an element of an HTML document never comes from outside an iframe boundary (XML has no such boundary)',
                   accessors=('get_parent', 'get_tag_children', 'get_children', 'get_contents', 'get_tag_descendants', 'get_descendants'),
-                  self_fields={'cached_meta_lang': [], 'root': el_obj('html'), 'has_html_namespace': False}, first_only=False)
+                  self_fields={'cached_meta_lang': fresh_memo(ctx, 'cached_meta_lang'), 'root': el_obj('html'), 'has_html_namespace': False}, first_only=False)
 
     # ---- R4 ----------------------------------------------------------------------------------------------
     r4 = report.rule('C13-R4', 'range list tokenised and decoded like its sibling', floor=1)
